@@ -18,6 +18,8 @@ import subprocess
 import sys
 
 ROOT = "/tmp/confirm"
+SEEDROOT = os.environ.get("SEED_ROOT", "/tmp/seed")
+TAG = os.environ.get("SEED_TAG", "")
 PY = "/venv/bin/python"
 
 
@@ -32,7 +34,7 @@ def sh(cmd, cwd=None, env=None, timeout=1800):
 def confirm(diff):
     m = re.search(r"(C\d\d)/seed_out/(?:change|alt_change)_?(\w+)\.diff", diff)
     prop, k = m.group(1), m.group(2)
-    sid = f"{prop}-{k}"
+    sid = f"{prop}-{TAG}{k}"
     d = os.path.dirname(diff)
     demo = os.path.join(d, f"demo_{k}.py") if os.path.exists(os.path.join(d, f"demo_{k}.py")) else os.path.join(d, f"alt_demo_{k}.py")
     meta_src = os.path.join(d, f"meta_{k}.json") if os.path.exists(os.path.join(d, f"meta_{k}.json")) else os.path.join(d, f"alt_meta_{k}.json")
@@ -113,7 +115,7 @@ def main():
         j = int(args[1])
         args = args[2:]
     diffs = []
-    for p in sorted(glob.glob("/tmp/seed/C??/seed_out/*.diff")):
+    for p in sorted(glob.glob(SEEDROOT + "/C??/seed_out/*.diff")):
         b = os.path.basename(p)
         if not re.match(r"(alt_)?change_\w+\.diff$", b):
             continue
